@@ -235,6 +235,13 @@ class ThreadsAdapter:
                              == 'parked']}
 
 
+ALL_LABELS = ['start', 'm.can_disconnect', 'm.is_connected',
+              'm.pre_disconnect', 'eio.send', 'handler', 'm.disconnect',
+              'm.get_namespaces', 'm.sid_from_eio_sid', 'environ.has',
+              'environ.del']
+ASYNC_LABELS = ['start', 'eio.send', 'handler']
+
+
 class _Contained(Exception):
     def __init__(self, name):
         super().__init__(name)
